@@ -36,7 +36,7 @@ REQUIRED = ["sequences",
 
 
 def runs(tier, seed):
-    k = 100 if tier == "thorough" else 1
+    k = 80 if tier == "thorough" else 1
     return [Run("cont_prevector", cases=1800 * k, params={"len": 300}, timeout=14400 if k > 1 else 7200),
             Run("cont_bitdeque", cases=1200 * k, params={"len": 300}, timeout=14400 if k > 1 else 7200),
             Run("cont_vecdeque", cases=900 * k, params={"len": 300}, timeout=14400 if k > 1 else 7200),
